@@ -219,3 +219,288 @@ Proof.
   destruct (entry_state code_nested [(0, 9)] 3) as [s4|] eqn:E4; [|vm_compute in E4; discriminate].
   exists s4. split; [reflexivity|]. vm_compute in E4. inversion E4. vm_compute. repeat split; reflexivity.
 Qed.
+
+(* ==== extension 2a: frame_base.py on block graphs WITH back edges (Flow/Loop.v) ================ *)
+From PV Require Import Flow.Loop Flow.LoopProofs.
+
+(* For EVERY block graph with distinct block ids (back edges, self loops, jumps to ids that are no block,
+   unreachable blocks; any sizes): each block is executed once, in the order of code.order; a state merged
+   into an already executed block is never consumed.  The state with which FrameBase enters the block at
+   position p satisfies Inv and denotes exactly the join over the enabled paths made of FORWARD edges
+   (arrivesF: every edge goes to a block at a strictly later position). *)
+Theorem frame_loop_join_exact : forall code init, NoDup (map bid code) ->
+  forall p b s, nth_error code p = Some b -> entry_state code init p = Some s ->
+  Inv s /\
+  forall rho,
+    (forall x v, In v (vals rho s x) <->
+                 exists e, arrivesF code init rho (bid b) e /\ dget x e = Some v) /\
+    (holds rho (scond s) = true <-> exists e, arrivesF code init rho (bid b) e).
+Proof. exact frame_loop_join_exact_lemma. Qed.
+Print Assumptions frame_loop_join_exact.
+
+(* on an acyclic graph in topological order every path is forward: frame_join_exact is the special case *)
+Theorem forward_paths_are_all_paths_when_acyclic : forall code init rho k j e,
+  wf_code code = true -> (arrivesFK code init rho k j e <-> arrivesK code init rho k j e).
+Proof. exact arrivesF_acyclic. Qed.
+Print Assumptions forward_paths_are_all_paths_when_acyclic.
+
+(* soundness direction with loops: whatever an entry state allows is allowed by some real (all-edges) path *)
+Theorem frame_loop_sound : forall code init, NoDup (map bid code) ->
+  forall p b s rho x v, nth_error code p = Some b -> entry_state code init p = Some s ->
+  In v (vals rho s x) -> exists e, arrives code init rho (bid b) e /\ dget x e = Some v.
+Proof. exact frame_loop_sound_lemma. Qed.
+Print Assumptions frame_loop_sound.
+
+(* the stronger reading "every value a local can have on entry along ANY path, around the loop included, is
+   in the entry state" is FALSE: code_while, the header after one turn of the loop has x = 2, the entry state
+   only x = 1.  (Outside C18's quantifier, which is about merge_into on states built by the state's own
+   operations: recorded, not a finding.) *)
+Theorem frame_loop_all_paths_refuted :
+  exists code init p b s rho x v e,
+    NoDup (map bid code) /\ nth_error code p = Some b /\ entry_state code init p = Some s /\
+    arrives code init rho (bid b) e /\ dget x e = Some v /\ ~ In v (vals rho s x).
+Proof. exact frame_loop_all_paths_refuted_lemma. Qed.
+Print Assumptions frame_loop_all_paths_refuted.
+
+(* a block reached by an enabled forward path has a state when its turn comes ... *)
+Theorem frame_loop_reached_has_state : forall code init, NoDup (map bid code) ->
+  forall p b f rho e, nth_error code p = Some b -> run_prefix code init p = Some f ->
+  arrivesF code init rho (bid b) e -> exists s, entry_state code init p = Some s.
+Proof. exact frame_loop_reached_has_state_lemma. Qed.
+Print Assumptions frame_loop_reached_has_state.
+
+(* ... but one that is reachable through a back edge only has none: step() raises KeyError *)
+Theorem frame_back_edge_only_block_dies :
+  (exists e, arrives code_back_only [] rho_all 1 e) /\
+  entry_state code_back_only [] 1 = None /\ run_frame code_back_only [] = None.
+Proof. exact back_only_dies_lemma. Qed.
+Print Assumptions frame_back_edge_only_block_dies.
+
+(* the frame's final state (whose get_locals() is _final_locals) denotes exactly the exit environments of
+   the forward paths that end in a NO_NEXT opcode - RETURN-like, and also plain JUMP_FORWARD-like (quirk) *)
+Theorem frame_final_exact : forall code init, NoDup (map bid code) ->
+  forall f fl, run_frame code init = Some (f, fl) ->
+  exists s, ffinal f = Some s /\ fl = get_locals s /\ Inv s /\
+    forall rho,
+      (forall x v, In v (vals rho s x) <->
+                   exists e, finalF code init rho e /\ dget x e = Some v) /\
+      (holds rho (scond s) = true <-> exists e, finalF code init rho e).
+Proof. exact frame_final_exact_lemma. Qed.
+Print Assumptions frame_final_exact.
+
+(* non-vacuity: the while loop runs, its exit block B5 sees x = 1 under "not a0" and nothing under a0 (under
+   a fixed valuation the loop is never left), and the frame has a final state *)
+Example while_frame : NoDup (map bid code_while) /\
+  exists s, entry_state code_while [] 3 = Some s /\
+    vals rho_f s 0 = [1] /\ vals rho_t s 0 = [] /\
+    exists f fl, run_frame code_while [] = Some (f, fl) /\ length fl = 1.
+Proof.
+  split. { simpl. repeat constructor; simpl; intuition discriminate. }
+  destruct (entry_state code_while [] 3) as [s|] eqn:E; [|vm_compute in E; discriminate].
+  exists s. split; [reflexivity|]. vm_compute in E. inversion E.
+  split; [vm_compute; reflexivity|]. split; [vm_compute; reflexivity|].
+  destruct (run_frame code_while []) as [[f fl]|] eqn:E2; [|vm_compute in E2; discriminate].
+  exists f, fl. split; [reflexivity|]. vm_compute in E2. inversion E2. reflexivity.
+Qed.
+
+(* ==== extension 2b: the rest of the public API of variables.py / state.py (Flow/Api.v) ========= *)
+From PV Require Import Flow.Api Flow.ApiProofs.
+
+Theorem get_atomic_value_ok : forall v t x,
+  get_atomic_value v t = inl x <->
+  exists c, vbindings v = [mkB x c] /\ forall isinst, t = Some isinst -> isinst x = true.
+Proof. exact get_atomic_value_ok_lemma. Qed.
+Print Assumptions get_atomic_value_ok.
+
+Theorem get_atomic_value_errors : forall v t,
+  (get_atomic_value v t = inr TooFew <-> vbindings v = []) /\
+  (get_atomic_value v t = inr TooMany <-> 2 <= length (vbindings v)) /\
+  (get_atomic_value v t = inr WrongType <->
+     exists b isinst, vbindings v = [b] /\ t = Some isinst /\ isinst (bval b) = false).
+Proof. exact get_atomic_value_errors_lemma. Qed.
+Print Assumptions get_atomic_value_errors.
+
+Theorem get_atomic_value_only_value : forall v t x rho,
+  get_atomic_value v t = inl x -> forall y, In y (var_vals rho v) -> y = x.
+Proof. exact get_atomic_value_only_value_lemma. Qed.
+Print Assumptions get_atomic_value_only_value.
+
+Theorem is_atomic_iff_get : forall v t,
+  is_atomic v t = true <-> exists x, get_atomic_value v t = inl x.
+Proof. exact is_atomic_iff_get_lemma. Qed.
+Print Assumptions is_atomic_iff_get.
+
+Theorem has_atomic_value_spec : forall v x,
+  has_atomic_value v x = true <-> get_atomic_value v None = inl x.
+Proof. exact has_atomic_value_spec_lemma. Qed.
+Print Assumptions has_atomic_value_spec.
+
+Theorem with_value_spec : forall v x v',
+  with_value v x = Some v' <-> exists b, vbindings v = [b] /\ v' = mkV [mkB x (bcond b)] (vname v).
+Proof. exact with_value_spec_lemma. Qed.
+Print Assumptions with_value_spec.
+
+Theorem with_value_none : forall v x, with_value v x = None <-> length (vbindings v) <> 1.
+Proof. exact with_value_none_lemma. Qed.
+Print Assumptions with_value_none.
+
+Theorem with_value_vals : forall v x v' rho,
+  with_value v x = Some v' ->
+  var_vals rho v' = map (fun _ => x) (var_vals rho v) /\ wfvar v' /\ vname v' = vname v.
+Proof. exact with_value_vals_lemma. Qed.
+Print Assumptions with_value_vals.
+
+Theorem with_name_spec : forall v n rho,
+  vbindings (with_name v n) = vbindings v /\ vname (with_name v n) = n /\
+  var_vals rho (with_name v n) = var_vals rho v.
+Proof. exact with_name_spec_lemma. Qed.
+Print Assumptions with_name_spec.
+
+Theorem load_local_spec : forall s x v,
+  load_local s x = Some v <-> exists v0, dget x (get_locals s) = Some v0 /\ v = with_name v0 (Some x).
+Proof. exact load_local_spec_lemma. Qed.
+Print Assumptions load_local_spec.
+
+Theorem load_local_none : forall s x, load_local s x = None <-> dget x (get_locals s) = None.
+Proof. exact load_local_none_lemma. Qed.
+Print Assumptions load_local_none.
+
+(* load_local hands the variable out without the lazily tracked block condition *)
+Theorem load_local_vals : forall s x v rho,
+  load_local s x = Some v -> vals rho s x = if blk rho s x then var_vals rho v else [].
+Proof. exact load_local_vals_lemma. Qed.
+Print Assumptions load_local_vals.
+
+Theorem store_then_load : forall s x v y,
+  load_local (store_local s x v) y = if Nat.eqb y x then Some (with_name v (Some x)) else load_local s y.
+Proof. exact store_then_load_lemma. Qed.
+Print Assumptions store_then_load.
+
+Theorem get_locals_store : forall s x v y,
+  dget y (get_locals (store_local s x v)) = if Nat.eqb y x then Some v else dget y (get_locals s).
+Proof. exact get_locals_store_lemma. Qed.
+Print Assumptions get_locals_store.
+
+(* with_condition on a state whose own condition is not TRUE: explicit locals get the COMBINED condition *)
+Theorem with_condition_shape : forall s c, NoDup (map fst (locals s)) ->
+  scond (with_condition s c) = AndC [scond s; c] /\
+  wbc (with_condition s c) = wbc s /\
+  forall x, dget x (get_locals (with_condition s c)) =
+            match dget x (get_locals s) with
+            | None => None
+            | Some v => Some (if nmem x (wbc s) then v else var_with_condition v (AndC [scond s; c]))
+            end.
+Proof. exact with_condition_shape_lemma. Qed.
+Print Assumptions with_condition_shape.
+
+Theorem with_condition_keys : forall s c, NoDup (map fst (locals s)) ->
+  map fst (get_locals (with_condition s c)) = map fst (get_locals s).
+Proof. exact with_condition_keys_lemma. Qed.
+Print Assumptions with_condition_keys.
+
+(* so with_condition(TRUE) is not the identity on such a state (the terms grow), only an equivalence *)
+Theorem with_condition_true_grows :
+  Inv grow_s /\
+  get_locals (with_condition grow_s CT) = [(0, mkV [mkB 1 (CAnd [CAnd [Atom 0; Atom 1]; Atom 0])] None)] /\
+  forall rho x, vals rho (with_condition grow_s CT) x = vals rho grow_s x.
+Proof. exact with_condition_true_grows_lemma. Qed.
+Print Assumptions with_condition_true_grows.
+
+Example api_nonvacuous :
+  get_atomic_value (from_value 7 None) (Some (fun v => Nat.leb v 9)) = inl 7 /\
+  get_atomic_value (from_value 7 None) (Some (fun v => Nat.leb v 3)) = inr WrongType /\
+  get_atomic_value (mkV [mkB 1 (Atom 0); mkB 2 (CNot (Atom 0))] None) None = inr TooMany /\
+  get_atomic_value (mkV [] (Some 0)) None = inr TooFew /\
+  with_value (mkV [mkB 1 (Atom 0)] (Some 3)) 5 = Some (mkV [mkB 5 (Atom 0)] (Some 3)) /\
+  has_atomic_value (mkV [mkB 1 (Atom 0)] None) 1 = true.
+Proof. repeat split. Qed.
+
+(* ==== extension 2c: the normal form of the terms conditions.py builds (Flow/Api.v cond_wfb) ===== *)
+From PV Require Import Flow.CondWfProofs.
+
+(* invariant: TRUE / FALSE / atoms are well formed, and every constructor maps well-formed arguments to a
+   well-formed term: a negation is never doubled; a composite has >= 2 members, each well formed, none
+   TRUE/FALSE, no two equal, none the negation of another *)
+Theorem cond_wf_not : forall c, cond_wfb c = true -> cond_wfb (NotC c) = true.
+Proof. exact notc_wf_lemma. Qed.
+Print Assumptions cond_wf_not.
+
+Theorem cond_wf_make : forall k args,
+  (forall a, In a args -> cond_wfb a = true) -> cond_wfb (make k args) = true.
+Proof. exact make_wf_lemma. Qed.
+Print Assumptions cond_wf_make.
+
+(* what IS guaranteed, spelled out *)
+Theorem cond_wf_composite : forall c, is_composite c = true -> cond_wfb c = true ->
+  2 <= length (members c) /\
+  (forall x, In x (members c) -> cond_wfb x = true /\ x <> CT /\ x <> CF) /\
+  nodupb (members c) = true /\
+  (forall x y, In x (members c) -> In y (members c) -> cond_eqb (NotC x) y = false).
+Proof. exact wf_composite_lemma. Qed.
+Print Assumptions cond_wf_composite.
+
+(* no flattening, no new subterms: the result of And/Or is an argument, a constant, or a composite of the
+   called kind whose members are arguments *)
+Theorem make_result_shape : forall k args,
+  (forall a, In a args -> cond_wfb a = true) ->
+  In (make k args) args \/ is_const (make k args) = true \/
+  exists s, make k args = mk k s /\ 2 <= length s /\ set_ok s /\ forall x, In x s -> In x args.
+Proof. exact make_result_lemma. Qed.
+Print Assumptions make_result_shape.
+
+Theorem no_flattening :
+  make KAnd [make KAnd [Atom 0; Atom 1]; Atom 2] = CAnd [CAnd [Atom 0; Atom 1]; Atom 2] /\
+  cond_wfb (CAnd [CAnd [Atom 0; Atom 1]; Atom 2]) = true /\
+  cond_eqb (make KAnd [make KAnd [Atom 0; Atom 1]; Atom 2]) (make KAnd [Atom 0; Atom 1; Atom 2]) = false.
+Proof. exact no_flattening_lemma. Qed.
+Print Assumptions no_flattening.
+
+(* laws for all terms *)
+Theorem make_single : forall k a, make k [a] = a.
+Proof. exact make_single_lemma. Qed.
+Print Assumptions make_single.
+
+Theorem make_idem : forall k a, make k [a; a] = a.
+Proof. exact make_idem_lemma. Qed.
+Print Assumptions make_idem.
+
+Theorem make_unit : forall k a, make k [ignore k; a] = a /\ make k [a; ignore k] = a.
+Proof. exact make_unit_lemma. Qed.
+Print Assumptions make_unit.
+
+Theorem make_zero : forall k a, make k [accept k; a] = accept k /\ make k [a; accept k] = accept k.
+Proof. exact make_zero_lemma. Qed.
+Print Assumptions make_zero.
+
+(* laws that need the normal form *)
+Theorem not_involutive : forall a, cond_wfb a = true -> NotC (NotC a) = a.
+Proof. intros a H. apply notc_involutive_lemma. apply wf_nn. exact H. Qed.
+Print Assumptions not_involutive.
+
+Theorem not_involutive_needs_wf : exists a, NotC (NotC a) <> a /\ cond_wfb a = false.
+Proof. exact notc_not_involutive_lemma. Qed.
+Print Assumptions not_involutive_needs_wf.
+
+Theorem make_complement : forall k a,
+  cond_wfb a = true -> is_const a = false -> is_const (NotC a) = false ->
+  make k [a; NotC a] = accept k /\ make k [NotC a; a] = accept k.
+Proof. intros k a H. apply make_complement_lemma. apply wf_nn. exact H. Qed.
+Print Assumptions make_complement.
+
+Theorem make_complement_needs_wf :
+  exists a b, cond_wfb a = false /\ cond_wfb b = true /\
+              (forall rho, holds rho a = negb (holds rho b)) /\ make KAnd [a; b] = CAnd [a; b].
+Proof. exact make_complement_needs_wf_lemma. Qed.
+Print Assumptions make_complement_needs_wf.
+
+(* equality of terms is symmetric (used by the set reasoning; Python's == on the dataclasses is) *)
+Theorem cond_eq_sym : forall a b, cond_eqb a b = cond_eqb b a.
+Proof. exact cond_eqb_sym. Qed.
+Print Assumptions cond_eq_sym.
+
+Example wf_nonvacuous :
+  cond_wfb (OrC [AndC [Atom 0; NotC (Atom 1)]; NotC (AndC [Atom 0; Atom 2]); Atom 1]) = true /\
+  is_composite (OrC [AndC [Atom 0; NotC (Atom 1)]; NotC (AndC [Atom 0; Atom 2]); Atom 1]) = true /\
+  cond_wfb (CAnd [Atom 0]) = false /\ cond_wfb (CAnd [Atom 0; CT]) = false /\
+  cond_wfb (COr [Atom 0; CNot (Atom 0)]) = false /\ cond_wfb (CNot (CNot (Atom 0))) = false.
+Proof. repeat split. Qed.
